@@ -29,7 +29,7 @@ func init() {
 			"the IdP bootstraps from the metadata only: entity ID, endpoints, bindings, flags, validUntil arithmetic, XML round trip, then verifies the SP's next signed message with the published signing certificate and has an assertion encrypted to the published encryption certificate under each listed method accepted; distinct = shape hash (key config, variant, hours, options, outcome)",
 		Directed:   c19Directed,
 		Run:        c19Run,
-		MustHit:    []string{"variant=Metadata", "variant=MetadataWithSLO", "hours>0", "hours<=0", "enc=setter", "sig=setter", "sig=field", "sig=none", "published_signing_cert_used", "published_encryption_cert_used", "xml_roundtrip", "non_utc_location"},
+		MustHit:    []string{"variant=Metadata", "variant=MetadataWithSLO", "hours>0", "hours<=0", "enc=setter", "sig=setter", "sig=field", "sig=none", "published_signing_cert_used", "published_encryption_cert_used", "xml_roundtrip", "non_utc_location", "near_dst_transition"},
 		RandomRuns: map[string]int{"quick": 600, "thorough": 20000},
 		Assumptions: []string{"an encryption key is always configured (the library documents it as required)",
 			"XML round trip is compared as values: encoding/xml fills XMLName bookkeeping fields on the way back"},
@@ -78,6 +78,12 @@ func c19Run(r *core.Run) {
 	r.Sim.Advance(time.Duration(t.Int(1e9, "c19.subsec")))
 	if o.Cfg.Loc != time.UTC {
 		r.Probe("non_utc_location")
+	}
+	// clock jump: place the SP clock less than the validity period before a daylight-saving transition
+	if tr := nextTransition(o.Cfg.Loc, o.Node.Now()); !tr.IsZero() && t.Bool("c19.neardst") {
+		r.Sim.SetNow(tr.Add(-time.Duration(1+t.Int(7*24*3600-1, "c19.beforedst")) * time.Second).Add(-o.Cfg.Skew))
+		r.Fault("clock_jump_near_dst")
+		r.Probe("near_dst_transition")
 	}
 	r.Probe("variant=" + variant)
 	r.Probe("enc=" + o.EncStyle.String())
